@@ -445,6 +445,9 @@ static const seed_t seeds[] = {
     { "npd-zin", F_NPD, "npd",
 	"#:ports 2\n#:frequencies 1\n#:parameters SRL,zinri\n"
 	"1 1 2 3 4 5 6 7 8\n", SF_L2 },
+    { "npd-zin-z0", F_NPD, "npd",
+	"#NPD\n#:version 1.0\n#:ports 2\n#:frequencies 1\n"
+	"#:parameters Zinri\n#:z0 50 0 75 0\n1.0e9 1 2 3 4\n", 0 },
     { "npd-long-lines", F_NPD, "npd",
 	"#:ports 3\n#:frequencies 1\n#:parameters          Sri\n"
 	"#:z0 50.000000000 0.000000000 50.000000000 0.000000000 "
@@ -467,6 +470,13 @@ static const seed_t seeds[] = {
 	"#:ports 3\n#:frequencies 1\n#:parameters Zri,Hma\n"
 	"1 1 2 3 4 5 6 7 8 9 10 11 12 13 14 15 16 17 18 "
 	"1 2 3 4 5 6 7 8 9 10 11 12 13 14 15 16 17 18\n", SF_PROBE },
+    /* no port at all, input impedances asked for, a reference line */
+    { "npd-probe-0port-zin-z0", F_NPD, "npd",
+	"#NPD\n#:version 1.0\n#:ports 0\n#:frequencies 1\n"
+	"#:parameters Zinri\n#:z0\n1.0e9\n", SF_PROBE },
+    { "npd-probe-0port-zin-fz0", F_NPD, "npd",
+	"#NPD\n#:version 1.0\n#:ports 0\n#:frequencies 1\n"
+	"#:parameters Zinri\n#:z0 PER-FREQUENCY\n1.0e9\n", SF_PROBE },
     /* dimensions far beyond the data that follow: refused, not crashed */
     { "vnacal-probe-huge-dims", F_VNACAL, "vnacal",
 	"#VNACal 1.0\n%YAML 1.1\n---\nproperties: ~\ncalibrations:\n"
